@@ -1,9 +1,19 @@
 use std::io::Result as IoResult;
 use std::io::{Read, Write};
 
+#[cfg(not(tiny_http_verif))]
 use std::sync::mpsc::channel;
+#[cfg(not(tiny_http_verif))]
 use std::sync::mpsc::{Receiver, Sender};
+#[cfg(not(tiny_http_verif))]
 use std::sync::{Arc, Mutex};
+#[cfg(tiny_http_verif)]
+use std::sync::Arc;
+#[cfg(tiny_http_verif)]
+use tiny_http_vrt::sync::{
+    mpsc::{channel, Receiver, Sender},
+    Mutex,
+};
 
 use std::mem;
 
